@@ -1,0 +1,25 @@
+//go:build verif
+// +build verif
+
+// Contracts for package fdbased, read only by the verifier in /verif (build tag verif).
+// This file contains no code.
+
+package fdbased
+
+// C06 (Ethernet framing): a packet that is not looped back leaves through exactly one write
+// whose first buffer starts with a 14-byte Ethernet II header: destination = the link address
+// resolved for the next hop (the route's remote link address), source = the route's local
+// link address (this endpoint's own address for a route without a local address), EtherType
+// = the network protocol number; the network-layer header bytes follow unchanged.
+//@ define macIs(b, o, a) = forall(k, 0, 6, implies(k < len(a), b[o + k] == byteat(a, k)))
+//@ func (*endpoint).WritePacket props C06
+//@   requires e != nil && r != nil && e.dispatcher != nil
+//@   requires 0 <= hdr.usedIdx && hdr.usedIdx <= len(hdr.buf) && hdr.usedIdx >= header.EtheernetMinimumsize && len(hdr.buf) <= 1 << 40
+//@   requires payload.size == vsum(payload.views) && 0 <= payload.size && payload.size <= 1 << 40 && len(payload.views) <= 1 << 30
+//@   at_call NonBlockingWrite requires len(buf) == old(len(hdr.buf) - hdr.usedIdx) + 14 && macIs(buf, 0, r.RemoteLinkAddress) && be16(buf, 12) == uint16(protocol)
+//@             && macIs(buf, 6, ite(len(r.LocalAddress) != 0, r.LocalLinkAddress, e.addr))
+//@             && arr(buf) == arr(hdr.buf) && off(buf) == off(hdr.buf) + old(hdr.usedIdx) - 14
+//@   at_call NonBlockingWrite2 requires len(b1) == old(len(hdr.buf) - hdr.usedIdx) + 14 && macIs(b1, 0, r.RemoteLinkAddress) && be16(b1, 12) == uint16(protocol)
+//@             && macIs(b1, 6, ite(len(r.LocalAddress) != 0, r.LocalLinkAddress, e.addr))
+//@             && arr(b1) == arr(hdr.buf) && off(b1) == off(hdr.buf) + old(hdr.usedIdx) - 14 && len(b2) == payload.size
+//@   modifies everything()
